@@ -401,4 +401,78 @@ theorem alive_zero {s : St} (hd : Down s) : alive s = 0 := by
     simp [hd.workers w hw]
   simp [alive, hd.loop, hd.sends, this]
 
+theorem lt_of_getElem? {α : Type} {l : List α} {i : Nat} {x : α} (h : l[i]? = some x) : i < l.length := by
+  rcases Nat.lt_or_ge i l.length with h' | h'
+  · exact h'
+  · simp [List.getElem?_eq_none h'] at h
+
+/-- every enabled internal action is among the candidates `quiescent` looks at -/
+theorem internal_mem_candidates {c : Cfg} {s s' : St} {a : Act} (hw : WF c s) (h : Step c s a s')
+    (hi : a.internal = true) : a ∈ candidates s := by
+  cases h <;> simp only [Act.internal] at hi <;> try (cases hi; done)
+  case enqSub i k x hc hq => exact (cand_call (lt_of_getElem? hc)).1
+  case enqUnsub i k x hc hq => exact (cand_call (lt_of_getElem? hc)).2.1
+  case callAbort i cl hc hx => exact (cand_call (lt_of_getElem? hc)).2.2.1
+  case waitRet i x hc hl hw' => exact (cand_call (lt_of_getElem? hc)).2.2.2.1
+  case loopSubQ k rest hl hq => exact (cand_loop s).1
+  case loopSub i k x hl hc => exact (cand_call (lt_of_getElem? hc)).2.2.2.2.1
+  case loopUnsubQ k rest hl hq => exact (cand_loop s).2.1
+  case loopUnsub i k x hl hc => exact (cand_call (lt_of_getElem? hc)).2.2.2.2.2.1
+  case loopStats i x hl hc => exact (cand_call (lt_of_getElem? hc)).2.2.2.2.2.2.1
+  case loopTake i m x hl hc => exact (cand_call (lt_of_getElem? hc)).2.2.2.2.2.2.2
+  case loopSend accept m buf' dropped hl hs =>
+    cases accept
+    · exact (cand_loop s).2.2.2.1
+    · exact (cand_loop s).2.2.1
+  case loopSendAbort m hl hd => exact (cand_loop s).2.2.2.2.1
+  case loopExit hl hd => exact (cand_loop s).2.2.2.2.2
+  case wRecvBuf w m rest hw' hb => exact (cand_worker (lt_of_getElem? hw')).1
+  case wRecvDirect w m cap hw' hb hl hc => exact (cand_worker (lt_of_getElem? hw')).1
+  case wStart w m hw' => exact (cand_worker (lt_of_getElem? hw')).2.1
+  case wNext w k m start visited hw' hk hv hp => exact (cand_worker (lt_of_getElem? hw')).2.2.2.2.2 k hk
+  case wDone w m start visited hw' hr hp => exact (cand_worker (lt_of_getElem? hw')).2.2.1
+  case wAbandonGot w m hd hw' => exact (cand_worker (lt_of_getElem? hw')).2.2.2.1
+  case wAbandonIter w m start visited hd hw' => exact (cand_worker (lt_of_getElem? hw')).2.2.2.1
+  case wExit w hd hw' => exact (cand_worker (lt_of_getElem? hw')).2.2.2.2.1
+  case deliver k m hs hb => exact (cand_send hs).1
+  case handoff k m hs hb ho => exact (cand_send hs).2.1
+  case sendAbort k m hs hd => exact (cand_send hs).2.2
+  case recv k m rest hb ho => exact cand_recv (hw.chanLt k (by rw [hb]; simp))
+
+/-- `quiescent` is exactly: no internal action is enabled -/
+theorem quiescent_iff {c : Cfg} {s : St} (hr : Reachable c s) :
+    quiescent c s = true ↔ ∀ a, a.internal = true → step c s a = none := by
+  constructor
+  · intro hq a hi
+    cases h : step c s a with
+    | none => rfl
+    | some s' =>
+      exfalso
+      have hst := step_sound h
+      have hmem := internal_mem_candidates (wf_reachable hr) hst hi
+      have hn := none_of_quiescent hq hmem
+      have : step c s a = stepCore c s a := by
+        cases a <;> first | rfl | (simp [Act.internal] at hi)
+      rw [this, hn] at h; cases h
+  · intro hall
+    simp only [quiescent, enabledInternal, List.isEmpty_iff, List.filter_eq_nil_iff]
+    intro a ha
+    have hint : a.internal = true := by
+      simp only [candidates, List.mem_append, List.mem_flatMap, List.mem_cons, List.mem_map] at ha
+      rcases ha with (((⟨i, _, h⟩ | h) | ⟨w, _, h⟩) | ⟨p, _, h⟩) | ⟨k, _, h⟩
+      · simp only [List.not_mem_nil, or_false] at h
+        rcases h with h | h | h | h | h | h | h | h <;> subst h <;> rfl
+      · simp only [List.not_mem_nil, or_false] at h
+        rcases h with h | h | h | h | h | h <;> subst h <;> rfl
+      · simp only [List.not_mem_nil, or_false] at h
+        rcases h with (h | h | h | h | h) | ⟨k, _, h⟩ <;> subst h <;> rfl
+      · simp only [List.not_mem_nil, or_false] at h
+        rcases h with h | h | h <;> subst h <;> rfl
+      · subst h; rfl
+    have := hall a hint
+    have hst : step c s a = stepCore c s a := by
+      cases a <;> first | rfl | (simp [Act.internal] at hint)
+    rw [hst] at this
+    simp [this]
+
 end FunProofs.Broker
